@@ -1,6 +1,6 @@
 """Rules on the path layer (VfsPath / AsyncVfsPath): Table P guards, transfer routes, create_dir_all.
 Shared by C01 (R01.1), C02 (R02.3), C11 (R11.*), C17 (R17.1/2), C15 (async twin)."""
-from .terms import get_tracer, short, strip, fmt, fmt_guard, walk, call_of
+from .terms import get_tracer, short, strip, fmt, fmt_guard, walk, call_of, passthrough_of, alts
 from .inter import Inter
 from .pathflow import World, PathFlow, MUTATING
 from .panics import Discharger, norm, nguard, unchecked_arith
@@ -65,6 +65,32 @@ class PathRules:
         if self.methods.get(b.name) is b:
             return self.bodies(b.name)[1]
         return list(self.inter.code_bodies(b))
+
+    def deep_sites(self, name, depth=2):
+        """[(code body, site, tracer, sub, guards)] call sites of method `name` and of the private helpers of the path type it calls
+        (any arguments): `sub` maps a term of the body the site lies in into the method's name space (helper parameters replaced by
+        the actual arguments), `guards` are the site's guards in that name space plus those of the chain of helper calls — a step
+        extracted into `fn copy_entry_to(&self, dest: &VfsPath)` is still a step of copy_dir"""
+        b, cbs = self.bodies(name)
+        out = []
+        if b is None:
+            return out
+
+        def rec(cbs_, sub, outer, depth_, seen):
+            for cb in cbs_:
+                tr = get_tracer(self.facts, cb)
+                for s in self.inter.sites(cb):
+                    gs = [(g[0], sub(g[1])) + tuple(g[2:]) for g in self.guards(cb, s.bb)] + list(outer)
+                    out.append((cb, s, tr, sub, gs))
+                    hb = self.inter.local_callee(s)
+                    if depth_ > 0 and self.private_helper(hb) and hb.id != b.id and hb.id not in seen and \
+                            not any(hcb.id in {c.id for c in cbs} for hcb in self.inter.code_bodies(hb)):
+                        actuals = tuple(sub(tr.operand(a)) for a in s.args)
+                        ids = self.inter.callee_ids(hb)
+                        sub2 = (lambda ids_, act_: (lambda t: self.inter.subst(t, ids_, act_)))(ids, actuals)
+                        rec(list(self.inter.code_bodies(hb)), sub2, gs, depth_ - 1, seen | {hb.id})
+        rec(cbs, (lambda t: t), [], depth, set())
+        return out
 
     def sites(self, name, pred):
         """[(code body, site)] call sites in method `name` (closures incl.) satisfying pred(site)"""
@@ -587,18 +613,17 @@ class PathRules:
             if b is None:
                 continue
             found = {"create_dir_dest": 0, "child_dir": 0, "child_file": 0}
-            for cb in self.cbs(b):
-                tr = get_tracer(self.facts, cb)
-                for s in self.inter.sites(cb):
+            for cb, s, tr, sub, gs_deep in self.deep_sites(name):
+                if True:
                     nm = sname(s.path)
                     if nm == "create_dir" and s.self_ty and s.self_ty.endswith("VfsPath"):
-                        recv = norm(tr.operand(s.args[0]))
+                        recv = norm(sub(tr.operand(s.args[0])))
                         if self.is_arg(recv, 1):
                             found["create_dir_dest"] += 1
                             continue
                         # child directory: receiver = destination.join(item minus prefix), guarded by item type
                         okj = self._is_rerooted_child(recv)
-                        gs = self.guards(cb, s.bb)
+                        gs = gs_deep
                         okt = self.g_type(gs, self._is_walk_item, "Directory")
                         found["child_dir"] += 1
                         n += 2
@@ -606,11 +631,11 @@ class PathRules:
                         rep.ob(rule, b.id, "%s: child create_dir chosen by the item's own type" % name, okt,
                                "under item.metadata().file_type == Directory" if okt else "not guarded by the item's type", s.line)
                     if nm == "copy_file" and s.self_ty and s.self_ty.endswith("VfsPath"):
-                        recv = norm(tr.operand(s.args[0]))
-                        dst = norm(tr.operand(s.args[1]))
+                        recv = norm(sub(tr.operand(s.args[0])))
+                        dst = norm(sub(tr.operand(s.args[1])))
                         okr = self._is_walk_item(recv)
                         okd = self._is_rerooted_child(dst)
-                        gs = self.guards(cb, s.bb)
+                        gs = gs_deep
                         okt = self.g_type(gs, self._is_walk_item, "File")
                         found["child_file"] += 1
                         n += 3
@@ -621,6 +646,46 @@ class PathRules:
             for k, v in found.items():
                 n += 1
                 rep.ob(rule, b.id, "%s: %s present" % (name, k), v >= 1, "%d site(s)" % v, b.span)
+        return n
+
+    def backend_passthrough(self, rep, rule, names):
+        """what a method of the path type hands out is what the backend's method of the same name returned for this path, on every
+        successful return: no other route to a handle (`create_file` answering with `append_file()` for an empty file), no remembered
+        answer (metadata cached in the path value while it was walked)"""
+        n = 0
+        tname = self.w.trait
+        for name in names:
+            b = self.methods.get(name)
+            if b is None:
+                continue
+            bad = []
+            for ct, _, bb in self.inter.ret_cases(b):
+                if self.inter.case_polarity(ct) == "err":
+                    continue
+                v = norm(ct)
+                for a in alts(v if not (v[0] == "agg" and v[2] == "Ok" and v[3]) else norm(v[3][0][1])):
+                    x = a
+                    for _ in range(6):
+                        x = peel(x)
+                        if x[0] == "call" and isinstance(x[1], str) and short(x[1]) in ("Result::map_err", "Result::map", "Into::into", "From::from", "Ok") and x[2]:
+                            x = norm(x[2][0])
+                            continue
+                        pt = passthrough_of(x)
+                        if pt is not x and pt != x:
+                            x = pt
+                            continue
+                        break
+                    x = peel(x)
+                    ok = x[0] == "call" and sname(x[1]) == name and len(x) > 3 and x[3] is not None
+                    if ok:
+                        sb = self.facts.body(x[3][0])
+                        t_ = sb.blocks[x[3][1]].term if sb is not None else None
+                        ok = t_ is not None and t_.func.kind == "fn" and (t_.func.fn.get("trait") or "") == tname
+                    if not ok:
+                        bad.append(fmt(a)[:60])
+            n += 1
+            rep.ob(rule, b.id, "%s hands out the backend's %s result for this path" % (name, name), not bad, "" if not bad else
+                   "%s can answer with %s, which is not the result of the backend's %s call" % (name, bad[0], name), b.span)
         return n
 
     def _is_walk_item(self, t):
@@ -694,6 +759,17 @@ class PathRules:
                     okp = any(g[0] == "variant" and g[2] == "ok" and peel(g[1])[0] == "call" and
                               sname(peel(g[1])[1]) in ("copy_file", "create_dir") and
                               not self.is_arg(norm(peel(g[1])[2][0]), 1) for g in gs2)
+                    if not okp:
+                        # ... or of a private helper of the path type every return of which hands on the result of one of the two
+                        # (`src.copy_entry_to(&dest)?` with `match type { Directory => dest.create_dir(), File => self.copy_file(dest) }`)
+                        for g in gs2:
+                            if g[0] == "variant" and g[2] == "ok" and peel(g[1])[0] == "call":
+                                hb = self.inter.body_of_call(peel(g[1]))
+                                if self.private_helper(hb):
+                                    cases = self.inter.ret_cases(hb)
+                                    pts = [passthrough_of(norm(ct)) for ct, _, _ in cases if self.inter.case_polarity(ct) != "err"]
+                                    if pts and all(pt[0] == "call" and sname(pt[1]) in ("copy_file", "create_dir") for pt in pts):
+                                        okp = True
                     if not okp:
                         after = False
             n += 2
